@@ -322,6 +322,18 @@ def align_case(col, seed):
         return out
     P = pop(rng.randint(1, 4), 0, rng.choice([2, 2, 6]))
     S = pop(rng.randint(1, 5), 100, rng.choice([3, 1, 0]))
+    if seed % 5 == 0:
+        # nested primaries: one long primary over two or three short ones, a short secondary inside each short primary -
+        # the long primary shares every secondary with a primary that is NOT its neighbour in the match list
+        a = rng.randint(1, 2)
+        b = a + rng.randint(0, 1)
+        c = b + rng.randint(2, 3)
+        d = min(T - 1, c + rng.randint(0, 1))
+        P = [(1, 0, T - 1, 1), (2, a, b, 1), (3, c, d, 1)]
+        S = [(101, a, a, 1), (102, c, d, 1)]
+        if d + 2 <= T - 1 and rng.random() < 0.5:
+            P.append((4, d + 2, T - 1, 1))
+            S.append((103, d + 2, T - 1, 1))
     # align documents that secondaries completely overlapped by others must be excluded: keep (t0,t1) both increasing
     S.sort(key=lambda f: f[1])
     S = [f for k, f in enumerate(S) if all(f[2] > g[2] for g in S[:k])]
